@@ -373,6 +373,103 @@ def gemini_cases(ctx):
         judge(ctx, "gemini.logical.gr_zero_to_one", f"rows={rows}", S, logical.gr_zero_to_one, (I(rows),), valid, end)
 
 
+def user_program_cases(ctx):
+    """the library moves called from USER programs: with literal index lists in a program compiled with the layout (so that the paths are
+    generated at compile time), and as a sequence of calls in which an earlier call takes its early-return guard (empty lists known only at
+    run time) - plain, with aggressive folding, and after AggressiveUnroll"""
+    from bloqade.shuttle.passes.fold import AggressiveUnroll
+    from bloqade.shuttle.prelude import move as move_group
+    from bloqade.shuttle.stdlib.layouts import single_col_zone, two_col_zone
+    from bloqade.shuttle.stdlib import waypoints, moves as old_moves
+    from gen import kernels
+    n = 0
+    decs = [("", None), ("(arch_spec=S)", None), ("(arch_spec=S, aggressive=True)", None), ("(aggressive=True)", None), ("", "AggressiveUnroll"), ("(arch_spec=S)", "AggressiveUnroll"),
+            ("", "AggressiveUnroll-fixpoint"), ("(arch_spec=S)", "AggressiveUnroll-fixpoint")]
+
+    def build(src, name, S, post, **ns):
+        m = kernels.define(src, S=S, **ns)[name]
+        if post == "AggressiveUnroll":
+            AggressiveUnroll(move_group)(m)
+        elif post == "AggressiveUnroll-fixpoint":
+            AggressiveUnroll(move_group).fixpoint(m)
+        return m
+    # --- CZ move with literal lists ---
+    S = single_col_zone.get_spec(3, 2, 10.0)
+    for cx, cy, qx, qy in (([0], [0], [1], [0]), ([0, 1], [0, 1], [1, 2], [0, 1]), ([2], [1], [0], [1])):
+        for fname, meth in (("cz_move", single_col_zone.cz_move), ("default_move_cz", old_moves.default_move_cz)):
+            for dec, post in decs:
+                src = f"@move{dec}\ndef prog():\n    {fname}({cx}, {cy}, {qx}, {qy})\n"
+                lab = f"user program @move{dec}{'+' + post if post else ''}: {fname}({cx}, {cy}, {qx}, {qy}) on layout 3x2@10.0"
+                try:
+                    m = build(src, "prog", S, post, **{fname: meth})
+                except Exception as e:
+                    ctx.evaluations += 1
+                    ctx.fail({"move": "program/cz_move", "kind": "valid-input-rejected", "error": type(e).__name__}, {"move": "program/cz_move", "call": lab},
+                             f"{lab}: refused at definition: {type(e).__name__}: {str(e)[:120]}")
+                    continue
+                n += 1
+                evs = judge(ctx, "program/cz_move", lab, S, m, (), True, lambda before: {a: p for p, a in before.items()})
+                if evs is not None and (sum(1 for e in evs if e[0] == "cz") != 1 or sum(1 for e in evs if e[0] == "play") != 2):
+                    ctx.fail({"move": "program/cz_move", "kind": "wrong-destination", "detail": "not forward path, gate, return path"}, {"move": "program/cz_move", "call": lab},
+                             f"{lab}: the CZ move must play the forward path, the gate and the return path; executed {[e[0] for e in evs]}")
+    # --- rearrange with literal lists, and after a call that takes the early-return guard ---
+    S = two_col_zone.get_spec(2, 3, 10.0, 2.0)
+    zone = S.layout.static_traps["traps"]
+    for sx, sy, dx, dy in (([0], [0], [3], [1]), ([0, 2], [0, 1], [1, 3], [1, 2]), ([1], [2], [2], [0])):
+        src_s = [(F(zone.x_positions[i]), F(zone.y_positions[j])) for i in sx for j in sy]
+        dst_s = [(F(zone.x_positions[i]), F(zone.y_positions[j])) for i in dx for j in dy]
+
+        def end(before, src_s=src_s, dst_s=dst_s):
+            m = dict(zip(src_s, dst_s))
+            return {a: m.get(p, p) for p, a in before.items()}
+        for dec, post in decs:
+            src = f"@move{dec}\ndef prog():\n    rearrange({sx}, {sy}, {dx}, {dy})\n"
+            lab = f"user program @move{dec}{'+' + post if post else ''}: rearrange({sx}, {sy}, {dx}, {dy}) on layout 2x3@10.0/2.0"
+            try:
+                m = build(src, "prog", S, post, rearrange=two_col_zone.rearrange)
+                n += 1
+                judge(ctx, "program/rearrange", lab, S, m, (), True, end, extra_occupied=src_s)
+            except Exception as e:
+                ctx.evaluations += 1
+                ctx.fail({"move": "program/rearrange", "kind": "valid-input-rejected", "error": type(e).__name__}, {"move": "program/rearrange", "call": lab},
+                         f"{lab}: refused at definition: {type(e).__name__}: {str(e)[:120]}")
+            # the same call after a call whose lists are empty at run time (the library's documented no-op), and followed by another no-op
+            src = ("@move" + dec + "\ndef prog(e: ilist.IList[int, Any], a: ilist.IList[int, Any], b: ilist.IList[int, Any], c: ilist.IList[int, Any], d: ilist.IList[int, Any]):\n"
+                   "    rearrange(e, e, e, e)\n    rearrange(a, b, c, d)\n    rearrange(e, b, e, d)\n")
+            lab = f"user program @move{dec}{'+' + post if post else ''}: rearrange(empty lists); rearrange({sx}, {sy}, {dx}, {dy}); rearrange(empty x lists) on layout 2x3@10.0/2.0"
+            try:
+                m = build(src, "prog", S, post, rearrange=two_col_zone.rearrange)
+                n += 1
+                judge(ctx, "program/rearrange", lab, S, m, (I([]), I(sx), I(sy), I(dx), I(dy)), True, end, extra_occupied=src_s,
+                      sig_extra={"after_early_return": True, "aggressive_option": "aggressive=True" in dec, "post_pass": post})
+            except Exception as e:
+                ctx.evaluations += 1
+                ctx.fail({"move": "program/rearrange", "kind": "valid-input-rejected", "error": type(e).__name__}, {"move": "program/rearrange", "call": lab},
+                         f"{lab}: refused at definition: {type(e).__name__}: {str(e)[:120]}")
+    # --- CZ move and waypoint move after calls that take their guards ---
+    S = single_col_zone.get_spec(4, 3, 5.0)
+    z = S.layout.static_traps["traps"]
+    a, b = z[0:2, 0:2], z[2:4, 1:3]
+
+    def end_w(before):
+        m = dict(zip([(F(p[0]), F(p[1])) for p in a.positions], [(F(p[0]), F(p[1])) for p in b.positions]))
+        return {x: m.get(p, p) for p, x in before.items()}
+    for dec, post in decs:
+        src = ("@move" + dec + "\ndef prog(e: ilist.IList[int, Any], w0, w):\n    cz_move(e, e, e, e)\n    move_by_waypoints(w0, True, True)\n"
+               "    move_by_waypoints(w, True, True)\n    cz_move(e, e, e, e)\n")
+        lab = f"user program @move{dec}{'+' + post if post else ''}: cz_move(empty lists); move_by_waypoints(no waypoints); move_by_waypoints(a -> b); cz_move(empty lists)"
+        try:
+            m = build(src, "prog", S, post, cz_move=single_col_zone.cz_move, move_by_waypoints=waypoints.move_by_waypoints)
+            n += 1
+            judge(ctx, "program/move_by_waypoints", lab, S, m, (I([]), I([]), I([a, b])), True, end_w, extra_occupied=[(F(p[0]), F(p[1])) for p in a.positions],
+                  sig_extra={"after_early_return": True, "aggressive_option": "aggressive=True" in dec, "post_pass": post})
+        except Exception as e:
+            ctx.evaluations += 1
+            ctx.fail({"move": "program/move_by_waypoints", "kind": "valid-input-rejected", "error": type(e).__name__}, {"move": "program/move_by_waypoints", "call": lab},
+                     f"{lab}: refused at definition: {type(e).__name__}: {str(e)[:120]}")
+    ctx.count("library moves called from user programs (literal lists / sequences with early returns) x 8 compilation routes", n)
+
+
 def run(ctx):
     warnings.simplefilter("ignore")
     ctx.rule = ("every library move on the layout its module provides: single-zone CZ move (both modules) and two-column rearrange for layout "
@@ -386,6 +483,7 @@ def run(ctx):
     same_arguments_on_two_layouts(ctx)
     waypoint_cases(ctx)
     gemini_cases(ctx)
+    user_program_cases(ctx)
     # ---- the Gallina simulator on the same paths ----
     cases = COQ_CASES if len(COQ_CASES) <= ctx.pick(400, 3000) else ctx.rng.sample(COQ_CASES, ctx.pick(400, 3000))
     chunks = [cases[i:i + 25] for i in range(0, len(cases), 25)]
